@@ -134,6 +134,11 @@ SimRunClauses ==
          THEN On("C20", C20_Parent(Cfg, Opts, fin.lg, Run.args.sub, Run.args.expectSteps)
                         \o << <<"C20.L.exact-rate", Run.obs.exactRate>> >>)
          ELSE <<>>)
+     \* runs recorded without events: the whole run must be the specification's run
+     \o (IF Len(Run.ev) = 0 /\ ~Run.args.plainTasks
+         THEN << <<"L2.run", IF Run.ret = "ok" THEN [st |-> fin.st, lg |-> fin.lg] = SimulateF(Cfg, Opts)
+                             \* a run that died in list.remove(): the specification predicts the crash
+                             ELSE Run.ret = "exc:ValueError" /\ SimulateF(Cfg, Opts).st.crash>> >> ELSE <<>>)
      \o (IF Len(Run.ev) = 0 THEN <<>> ELSE
          On("C08", LET spec == FoldedLogs(EmptyLogs(Cfg))
                   IN << <<"C08.L.live-time", fin.lg.time = Len(PerformedStates) * Unit(Opts)>>,
